@@ -18,21 +18,35 @@ META = {
     "technique": "Coq-verified exact point-in-solid classifier + exact 6*volume run on the implementation's outputs (lattice CSG programs: every voxel "
                  "centre and the exact volume; generic pairs: far-from-surface sample points, commutativity, inclusion-exclusion) + proved kernels "
                  "tied to the source by a translator",
-    "text": "Coq (Properties_C02.v, all closed under the global context): winding (signed +z-ray crossing number over Z, half-open rule, exact "
+    "text": "Coq (Properties_C02.v, 31 theorems, all closed under the global context): winding (signed +z-ray crossing number over Z, half-open rule, exact "
             "determinants) is additive, order/rotation invariant, negated by flipping, equal to its bounding-interval-filtered extracted form; for the "
             "12-triangle table of Impl(Shape::Cube) (table regenerated from impl.cpp and compared) on any integer box it is 1 inside / 0 outside at every "
             "point off the six face planes (winding_box), 6*volume is 6*dx*dy*dz; voxel_spec: for every CSG tree over lattice boxes/half-spaces the set "
             "formula over 'winding of the leaf cube mesh != 0' equals the comparison-only classifier; lattice_check_sound: if the extracted checker reports "
-            "0 mismatches then at every voxel centre the output's winding number is the formula's indicator and the reported 6*volume is exact. "
-            "inclusion_table/abs_sum_scan (about c1,c2,c3, the i03/i30/i12/i21 lambdas, AbsSum, DuplicateVerts' count regenerated from boolean_result.cpp): "
-            "c1*k+c2*w+c3*k*w is the multilinear extension of the set formula for all three OpTypes and the inclusion numbers are exactly its jumps for all "
-            "integer winding numbers; the scans give consecutive disjoint vertex ranges covering [init,total). shadows_is_perturbed_order/antisymmetry about "
-            "Shadows/withSign regenerated from shared.h. Validation: every result of lattice CSG programs (pairs of boxes in {0..3}^3 x 3 ops - all 139,968 in "
-            "the thorough tier -, nested programs with Split/SplitByPlane/TrimByPlane/BatchBoolean, lazy and eager evaluation) must have the formula's winding "
-            "number at all voxel centres and exact 6*volume = 6*voxel count; generic pairs of Cube/Sphere/Cylinder/Tetrahedron under random transforms are "
-            "classified at ~200 points farther than 10*tolerance from both inputs, with commutativity and inclusion-exclusion of exact volumes.",
-    "note": "Not proved: that boolean3.cpp/boolean_result.cpp compute the right solid (only their outputs are checked, on the generated inputs); the "
-            "general theorem 'equal winding everywhere => equal volume'; schedule independence of the AbsSum scan under TBB. Trusted: Coq kernel, "
+            "0 mismatches then at every voxel centre the output's winding number is the formula's indicator and the reported 6*volume is exact; "
+            "equal_winding_equal_volume_lattice for signed voxel-cube chains. inclusion_table/abs_sum_scan/abs_sum_scan_parallel (about c1,c2,c3, the "
+            "i03/i30/i12/i21 lambdas, AbsSum, DuplicateVerts' count regenerated from boolean_result.cpp): c1*k+c2*w+c3*k*w is the multilinear extension of "
+            "the set formula and the inclusion numbers are exactly its jumps for all integer winding numbers; the AbsSum scans give consecutive disjoint "
+            "vertex ranges covering [init,total), also under EVERY legal tbb::parallel_scan schedule (C13's protocol model) although AbsSum has no identity. "
+            "Exact-Q port of the boolean3.cpp kernels (Interpolate, Intersect, Shadow01, Kernel02, Kernel11, Kernel12; Shadows/withSign regenerated from "
+            "shared.h): shadowsQ_is_perturbed_order/antisymmetry, shadow01_spec (both passes ask the same perturbed question 'P-vertex left of Q-vertex'), "
+            "kernel02_is_crossing_sum_partial, kernel12_is_signed_sum, x12_sum_is_winding_difference (for a closed B the x12 of an edge summed over all "
+            "faces is the difference of the end points' vertex windings, ties included), winding03_flood_fill_spec / winding03_is_vertex_winding (union-find "
+            "components = connectivity classes of unbroken edges; every vertex gets its own sum of s02 whatever representative was chosen). "
+            "Correspondence: the REAL Shadow01/Kernel02/Kernel11/Kernel12 (harness includes boolean3.cpp) and Boolean3's xv12_/xv21_/w03_/w30_ are compared "
+            "integer for integer with the extracted port on lattice box pairs, on operands that are Boolean results and on generic-position primitives "
+            "(differences excused only where a decision on a computed value is within 2^-30 relative of a tie); closed_meshb is evaluated on every operand. "
+            "Validation: every result of lattice CSG programs (pairs of boxes in {0..3}^3 x 3 ops x Split - all 247,536 incl. plane cuts in the thorough "
+            "tier -, nested programs with Split/SplitByPlane/TrimByPlane/BatchBoolean, programs whose sub-expressions carry 90-degree rotations, mirrors "
+            "and integer translations on nested same-op nodes, lazy and eager evaluation) must have the formula's winding number at all voxel centres and "
+            "exact 6*volume = 6*voxel count; generic pairs of Cube/Sphere/Cylinder/Tetrahedron under random transforms are classified at ~200 points "
+            "farther than 10*tolerance from both inputs, with commutativity and inclusion-exclusion of exact volumes.",
+    "note": "Not proved: that boolean3.cpp/boolean_result.cpp compute the right solid (only their outputs are checked, on the generated inputs); "
+            "'equal winding everywhere => equal volume' for arbitrary closed meshes (proved for voxel-cube chains only); that Kernel02's crossing sum "
+            "= +-1 iff the perturbed vertex projects inside the perturbed triangle; the consistency lemma 'an edge with no recorded intersection has "
+            "x12 = 0 against every face' is a hypothesis of winding03_is_vertex_winding (checked on real data by the correspondence). The kernel model "
+            "uses exact sums of face normals where the C++ rounds them (same sign unless within 1 ulp); DisjointSets is modelled as quick-find. "
+            "Spec-side push-down of lattice isometries to the leaves and the choice of violation keys are Python. Trusted: Coq kernel, "
             "extraction, the OCaml driver's exact decoding of IEEE-754 bit patterns, the C++ harness printing bit patterns, the regex translator, the "
             "double-precision distance filter (conservative margin 1e-9*scale) that only selects sample points.",
 }
@@ -625,6 +639,10 @@ def run_generic(cx, exe, drv, rng, count, npts):
         a, ka = gen_shape(rng)
         b, kb = gen_shape(rng)
         cases.append((i, "G %d %d %d %s %s" % (i, npts, rng.randrange(1 << 30), a, b), (ka, kb)))
+    return run_generic_lines(cx, exe, drv, cases)
+
+
+def run_generic_lines(cx, exe, drv, cases):
     lines = [c[1] for c in cases]
     kl = lambda l: l.split()[1] if l.startswith("G ") else None
     ko = lambda l: l.split()[1] if l.startswith("GT ") else None
@@ -807,6 +825,9 @@ def run_kernels(cx, kexe, kdrv, exe, drv, cases, label):
             b = [int(x) for x in m.get(tag, "").split()]
             mk[tag] = b
             cmp(tag, a, b, m.get("G" + tag, "").strip())
+        if m.get("CM", "").split() != ["1", "1"]:
+            # hypothesis of x12_sum_is_winding_difference / winding03_is_vertex_winding, validated on the real operands
+            cx.broke("hyp:C02/closed_mesh#%s" % cid, "an operand handed to Boolean3 is not a closed oriented halfedge structure (closed_meshb = %s)" % m.get("CM"))
         x12, x21, w03, w30 = b3[cid]
         nP, nfP, nQ, nfQ = [int(x) for x in d["KD"].split()]
         if x12 or x21:
@@ -861,6 +882,77 @@ def gen_kernel_cases(rng, nL, nN, nG):
 
 
 
+def replay(cx, exe, drv, path):
+    """bin/check C02 --replay <file>: re-run exactly one stored case (a replay JSON written by a previous run, or a text
+    file holding one canonical program `...@lazy|@eager`) through the implementation and the extracted checker and print
+    both sides; the case is reported again as a violation if the checker still rejects it."""
+    import json
+    txt = open(path).read()
+    try:
+        obj = json.loads(txt)
+        rep = obj.get("replay", obj)
+    except ValueError:
+        rep = {"program": [l.split("#")[0].strip() for l in txt.splitlines() if l.split("#")[0].strip()][0]}
+    if "program" in rep:
+        can = rep["program"]
+        mode = 1 if can.endswith("@eager") else 0
+        e = parse_pretty(can.rsplit("@", 1)[0])
+        key, can2 = prog_key(e, mode)
+        cx.log("replay %s  key=%s" % (can2, key))
+        cx.log("  prefix form fed to the harness: L 0 %d %s" % (mode, prefix(e)))
+        rc, out, err = vp.sh2([exe], input="L 0 %d %s\n" % (mode, prefix(e)), timeout=120)
+        mesh = [l for l in out.splitlines() if l.startswith("MESH r0")]
+        stl = [l for l in out.splitlines() if l.startswith("ST 0")]
+        cx.log("  implementation: rc=%d %s ; mesh %s vertices %s triangles" % (rc, stl[0] if stl else "no status line",
+               mesh[0].split()[2] if mesh else "?", mesh[0].split()[3] if mesh else "?"))
+        if mesh:
+            spec = pushdown(e) if has_xform(e) else None
+            if spec is not None:
+                lo, hi = leaf_range(spec)
+                cmds = [mesh[0], "LATS 0 %d %d r0 %s" % (hi - lo, -lo, prefix(shift_prog(spec, -lo)))]
+                n, sh = hi - lo, -lo
+                cx.log("  specification (transforms pushed down to the leaves): %s" % pretty(spec))
+            else:
+                cmds = [mesh[0], "LAT 0 %d r0 %s" % (N, prefix(e)), "LATW 0 %d r0" % N]
+                n, sh = N, 0
+            rc2, dout, derr = vp.sh2([drv], input="\n".join(cmds) + "\n", timeout=300)
+            for l in dout.splitlines():
+                t = l.split()
+                if t[0] == "L":
+                    k = int(t[2])
+                    vol = Fraction(int(t[5], 16), 1 << (3 * k)) / 6
+                    cx.log("  checker: scale 2^%d, voxel centres misclassified %s, voxels kept by the formula %s, exact volume %s (= %.9g), csg_wf %s"
+                           % (k, t[3], t[4], vol, float(vol), t[6]))
+                elif t[0] == "LW":
+                    w = [int(x) for x in t[2:]]
+                    want = voxels(e)
+                    cells = [(x, y, z) for x in range(N) for y in range(N) for z in range(N)]
+                    diff = [(c, w[i], int(c in want)) for i, c in enumerate(cells) if w[i] != int(c in want)]
+                    cx.log("  winding at the 27 voxel centres (x-major): %s" % " ".join(map(str, w)))
+                    cx.log("  voxels where it differs from the formula (voxel, winding, formula): %s" % (diff or "none"))
+                elif t[0] == "E":
+                    cx.log("  checker error: " + l)
+        run_lattice(cx, exe, drv, [("0", mode, e)], "replay")
+        cx.cov.update({"evaluations": 1, "distinct_nontrivial": 1, "rule": "replay of one stored case", "distribution": {"replay": path}})
+        return
+    if "harness_line" in rep and rep["harness_line"].startswith("G "):
+        line = rep["harness_line"]
+        cx.log("replay generic pair: " + line[:200])
+
+        class _One(random.Random):
+            pass
+        # re-run exactly that harness line through run_generic's comparison code
+        out, crashes = vp.run_cases(exe, [line], lambda l: l.split()[1], lambda l: l.split()[1] if l.startswith("GT ") else None)
+        for l in out.splitlines():
+            if l.startswith("GT "):
+                cx.log("  implementation: " + l[:200])
+        st = run_generic_lines(cx, exe, drv, [(int(line.split()[1]), line, ("?", "?"))])
+        cx.log("  checker: %s" % {k: v for k, v in st.items() if k != "kinds"})
+        cx.cov.update({"evaluations": 1, "distinct_nontrivial": 1, "rule": "replay of one stored case", "distribution": {"replay": path}})
+        return
+    cx.broke("replay", "replay file %s holds neither a lattice program nor a generic harness line" % path)
+
+
 def load_corpus():
     out = []
     for p in sorted(glob.glob(os.path.join(vp.ROOT, "corpus", "C02", "*.txt"))):
@@ -893,6 +985,9 @@ def run(cx):
     mls = vp.coq_extract("ExtractC02", ["c02_model.ml"])
     drv = vp.ocaml_build("c02_driver", mls + [os.path.join(vp.ROOT, "extract/c02_driver.ml")])
     exe = vp.build_harness("c02_bool", "seq", link_lib=True)
+
+    if cx.replay_mode:
+        return replay(cx, exe, drv, cx.replay_mode)
 
     rng = random.Random(cx.seed * 1000003 + 2)
     dist = {}
@@ -1039,4 +1134,4 @@ NQ_PAIRS, NQ_PLANE = 5000, 1500
 NQ_NEST, NT_NEST = 4000, 80000
 NQ_GEN, NT_GEN = 24, 300
 N_SEARCH = 60000
-NQ_KERN, NT_KERN = (40, 10, 2), (600, 150, 20)   # (box pairs, operands that are Boolean results, generic pairs)
+NQ_KERN, NT_KERN = (30, 8, 1), (600, 150, 20)   # (box pairs, operands that are Boolean results, generic pairs)
